@@ -190,9 +190,10 @@ def check_name_map(ctx, w):
                 ok = body == ['self._symbol_name_map[%s.name].append(%s)' % (s, i)]
                 why = 'body %r' % body
         ctx.ob('W-MAP', f.construct, 'map[name].append(enumeration index)', ok, msg='symbol-name map not built from the enumeration: ' + why)
-        rets = [expr.nfs(r.value, env) for r in expr.returns_of(f.node)]
-        want = expr.spec_nf('[get_symbol(self, i) for i in get(_symbol_name_map, name)] if get(_symbol_name_map, name) else None')
-        ok = rets == [want]
+        # decision rows over the truth of the stored index list (one conditional expression or an early return alike)
+        key = 'T(get(_symbol_name_map,name))'
+        rets = sorted(set((dict(c).get(key), v) for c, v in expr.rows(expr.return_rows(f.node, env))), key=repr)
+        ok = rets == sorted([(False, 'None'), (True, 'comp(get_symbol(self,i),for(i,get(_symbol_name_map,name)))')], key=repr)
         ctx.ob('W-MAP', f.construct, 'returns every symbol of the name, re-read by index', ok, got=rets,
                msg='lookup does not return all symbols stored under the name')
         # guard: map built iff None
